@@ -81,7 +81,9 @@ def consistent_intervals(guards):
 
 
 class Engine:
-    def __init__(self, model: Model, inline_depth=4, split_bool=True, keep_props=(), inline_subobjects=False, no_inline=()):
+    def __init__(self, model: Model, inline_depth=4, split_bool=True, keep_props=(), inline_subobjects=False, no_inline=(), split_ifexp=False, fork_props=False):
+        self.fork_props = fork_props  # properties with several paths are executed (forked) instead of staying opaque ('prop', ..) atoms
+        self.split_ifexp = split_ifexp  # `x = a if c else b` / `return a if c else b` become two paths instead of an ('ite',..) value
         self.no_inline = set(no_inline)  # method names kept as opaque `call` effects (e.g. abstract hooks)
         self.M = model
         self.depth = inline_depth
@@ -89,6 +91,7 @@ class Engine:
         self.keep_props = set(keep_props)  # property names never inlined (public atoms)
         self.inline_sub = inline_subobjects
         self.loops = []  # recorded loops: (fn, node, frame)
+        self.loop_entries = []  # (fn, node, frame, path state on reaching the loop)
         self.site = itertools.count()
 
     # ------------------------------------------------------------ expression evaluation
@@ -252,6 +255,11 @@ class Engine:
                 if name in self.keep_props or fr["depth"] >= self.depth or (base != ("self0",) and not self.inline_sub):
                     return ("prop", base, name, self.version(base, p))
                 r = self.inline_pure(m, base, [], p, fr)
+                if r is None and self.fork_props and node is not None:
+                    key = ("memo", id(node))
+                    if key in p.store:
+                        return p.store[key]
+                    raise NeedFork(node, fr)
                 return r if r is not None else ("prop", base, name)
             if m:
                 return ("bound", base, m.qual)
@@ -553,6 +561,20 @@ class Engine:
 
     def _stmt(self, s, p: Path, fr):
         M = self.M
+        if self.split_ifexp and isinstance(s, (ast.Return, ast.Assign, ast.AnnAssign)) and isinstance(s.value, ast.IfExp):
+            t, f = self.cond(s.value.test, p, fr)
+            out = []
+            for qs, val in ((t, s.value.body), (f, s.value.orelse)):
+                if isinstance(s, ast.Return):
+                    s2 = ast.Return(value=val)
+                elif isinstance(s, ast.Assign):
+                    s2 = ast.Assign(targets=s.targets, value=val)
+                else:
+                    s2 = ast.AnnAssign(target=s.target, annotation=s.annotation, value=val, simple=s.simple)
+                ast.copy_location(s2, s)
+                for q in qs:
+                    out.extend(self.stmt(s2, q, fr) if q.status == "run" else [q])
+            return out
         if isinstance(s, ast.Expr):
             if isinstance(s.value, ast.Constant):
                 return [p]
@@ -641,6 +663,7 @@ class Engine:
             return self.block(s.body, t, fr) + self.block(s.orelse, f, fr)
         if isinstance(s, (ast.While, ast.For, ast.AsyncFor)):
             self.loops.append((fr["fn"], s, fr))
+            self.loop_entries.append((fr["fn"], s, fr, p.clone()))
             p.effects.append(("loop", type(s).__name__, s.lineno))
             # havoc: every local / field assigned in the loop becomes unknown afterwards
             for n in ast.walk(s):
@@ -677,9 +700,23 @@ class Engine:
             return [p]
         raise Unsupported(type(s).__name__)
 
-    def exec_call(self, e: ast.Call, p: Path, fr):
+    def exec_call(self, e, p: Path, fr):
         """statement-level call: returns list of (path, result_sv). Inlines resolved repo methods fully."""
         M = self.M
+        if isinstance(e, ast.Attribute):
+            # a property read executed like a call (fork_props)
+            recv = self.ev(e.value, p, fr)
+            m = M.find_method(self.sv_class(recv, fr), e.attr)
+            nfr = self.frame(m, recv, [], fr)
+            out = []
+            for q in self.block(m.node.body, [p], nfr):
+                if q.status == "return":
+                    r = q.ret
+                    q.status, q.ret = "run", None
+                    out.append((q, r))
+                else:
+                    out.append((q, ("c", None)))
+            return out
         f = e.func
         src = ast.unparse(f)
         if src.startswith(LOG_PREFIX):
